@@ -166,9 +166,9 @@ CONTRACTS += [sub_header_parse, sub_header_bytes, sub_header_len, mpi_encode, mp
 
 
 # ---------------------------------------------------------------------------------------------------
-# partial body lengths (4.2.2.4): bounded stand-in.  The while loop of Header.length_bin consumes the chunk headers in place;
-# an inductive invariant over the buffer needs the recursive spec partial_chain unfolded per iteration, which z3's sequence solver
-# did not decide reliably (it also ignores its timeout there), so this clause is checked natively over every chunking listed below.
+# partial body lengths (4.2.2.4): the chunk loop of Header.length_bin is PROVED in contracts/partial.py (two-state inductive loop
+# contract). This native component stays as the bounded complement: it compares whole chains with the recursive spec partial_chain
+# (the induction over the iterations is a meta-argument there) and gives replayable inputs.
 def partial_lengths_bounded(tier='quick', seed=0, known=()):
     import itertools, random
     from pgpy.packet.types import Header
